@@ -2,7 +2,7 @@
 import exercises2 as E
 import coqlit as L
 
-COQ_IMPORTS = ['Model.DFA', 'Model.NFA', 'Model.Regexp', 'Model.CFG', 'Model.Lang', 'Model.CYK', 'Model.Checkers', 'Judge.Common', 'Judge.C12_judge', 'Judge.C12fb_judge']
+COQ_IMPORTS = ['Model.DFA', 'Model.NFA', 'Model.Regexp', 'Model.CFG', 'Model.Lang', 'Model.CYK', 'Model.Checkers', 'Model.PDA', 'Judge.Common', 'Judge.C12_judge', 'Judge.C12fb_judge']
 EXTRA_JUDGES = ['C12fb']
 RULE = ('exercise instances of the 31 exercise kinds (language from word list for DFA / NFA / regexp / grammar, language from a reference file (DFA, NFA, regexp answers against DFA, NFA, regexp files), accept/reject lists for CFG and DFA, automata_checker.check_{dfa,nfa}_for_given_language, union, intersection, symmetric difference, complement, reverse, '
         'minimal DFA (quotient and Hopcroft answers), NFA-to-DFA, DFA-to-regexp, CYK table, leftmost / rightmost / any derivation, Chomsky phases 1-5) with random references; for each the library\'s own answer '
